@@ -278,6 +278,14 @@ fn observe(what: &str, h: &mut Hist, desc: &str) -> Result<(), String> {
                 let x = eg.add_expr(whole.clone());
                 if before != snapshot(eg) { return Err(format!("C09:add.known-creates-nothing {}: inserting {} (equal to the inserted {} because {} = {}) changed the e-graph: {:?} -> {:?}", desc, whole, s, sub, subv, (before.0, before.1, before.2), { let n = snapshot(eg); (n.0, n.1, n.2) })); }
                 if !eg.eq(&x, &h.handles[k]) { return Err(format!("C09:add.known-creates-nothing {}: inserting {} gives {:?}, the first insertion of the equal term {} gave {:?}", desc, whole, x, s, h.handles[k])); }
+                // NEW parents inserted now (after the symmetry is known): (g (g s)) and then (g (g whole)) - the second one is
+                // represented as soon as the first is in, must create nothing and must give an equal invocation
+                let wrap = |t: &RecExpr<KL>| RecExpr::<KL>::parse(&format!("(g (g {}))", t)).unwrap();
+                let w1 = eg.add_expr(wrap(s));
+                let mid = snapshot(eg);
+                let w2 = eg.add_expr(wrap(&whole));
+                if mid != snapshot(eg) { return Err(format!("C09:add.known-creates-nothing {}: (g (g {})) was inserted; inserting (g (g {})), which equals it because {} = {}, changed the e-graph", desc, s, whole, sub, subv)); }
+                if !eg.eq(&w1, &w2) { return Err(format!("C09:add.known-creates-nothing {}: the new terms (g (g {})) and (g (g {})) are equal ({} = {}) but their invocations {:?} and {:?} are not", desc, s, whole, sub, subv, w1, w2)); }
             }
         }
     }
@@ -306,6 +314,10 @@ fn hand_written() -> Vec<(Vec<&'static str>, Vec<(usize, usize)>)> {
         (vec!["(mul (var $1) zero)", "zero", "(mul (var $2) (var $3))", "(mul (var $3) (var $2))"], vec![(0, 1), (2, 3)]),
         // a symmetric class loses a slot outside the orbit of its symmetry: the symmetry must survive
         (vec!["(f3 (var $1) (var $2) (var $3))", "(f3 (var $2) (var $1) (var $3))", "(f3 (var $1) (var $2) zero)"], vec![(0, 1), (0, 2)]),
+        // a class made symmetric by unions whose CHILD becomes symmetric later (its e-node is re-processed and yields a new
+        // permutation: the old symmetries must stay)
+        (vec!["(f3 (mul (var $1) (var $2)) (var $3) (var $4))", "(f3 (mul (var $1) (var $2)) (var $4) (var $3))", "(mul (var $1) (var $2))", "(mul (var $2) (var $1))", "(g (f3 (mul (var $1) (var $2)) (var $3) (var $4)))"], vec![(0, 1), (2, 3)]),
+        (vec!["(f4 (add (var $1) (var $2)) (var $3) (var $4) (var $1))", "(f4 (add (var $1) (var $2)) (var $4) (var $3) (var $1))", "(add (var $1) (var $2))", "(add (var $2) (var $1))"], vec![(0, 1), (2, 3)]),
         // a node with a SYMMETRIC child whose slots are tied to something outside the node (a sibling, a binder above it, a
         // second such node in the same match)
         (vec!["(add (var $1) (var $2))", "(add (var $2) (var $1))", "(app (lam $1 (add (var $1) (var $2))) (var $2))", "(sub (add (var $1) (var $2)) (var $1))", "(mul (add (var $1) (var $2)) (add (var $2) (var $3)))", "(lam $1 (add (var $1) (var $2)))", "(lam $3 (sub (add (var $3) (var $2)) (var $3)))", "(f3 (add (var $1) (var $2)) (var $2) (add (var $3) (var $1)))"], vec![(0, 1)]),
